@@ -118,8 +118,9 @@ static void cmd_parse(int nt, char **t)
 	free(buf); free(b);
 }
 
-/* PM <flags> <depth> <reset 0 only-after-errors | 1 always | 2 never-explicitly> <hex>...   several documents through ONE tokener (len = n+1 each);
+/* PM <flags> <depth> <reset 0 only-after-errors | 1 always | 2 never-explicitly; +4: every result is changed in place (SCRAMBLE) before it is released> <hex>...   several documents through ONE tokener (len = n+1 each);
  *   -> = <err> <end> <nonnull> <dump> || <err> ...        PV <hex>: json_tokener_parse_verbose -> = <err> <nonnull> <dump> */
+static long scramble_rec(struct json_object *o);
 static void cmd_parse_many(int nt, char **t)
 {
 	int flags = (int)L(t[1]), depth = (int)L(t[2]), rm = (int)L(t[3]), i;
@@ -133,8 +134,9 @@ static void cmd_parse_many(int nt, char **t)
 		if (i > 4) ob_puts(&out, " || ");
 		ob_printf(&out, "%s%d %zu %d ", i == 4 ? "= " : "", (int)e, json_tokener_get_parse_end(tok), o != NULL);
 		if (o || e == json_tokener_success) dump_node(&out, o, 0); else ob_putc(&out, '-');
+		if (rm & 4) scramble_rec(o);   /* the caller changes every scalar of what it got, in place, before letting go of it: the parser must not have kept (or shared) any of it */
 		json_object_put(o);
-		if (rm == 1 || (rm == 0 && e != json_tokener_success)) json_tokener_reset(tok);
+		if ((rm & 3) == 1 || ((rm & 3) == 0 && e != json_tokener_success)) json_tokener_reset(tok);
 		free(buf); free(b);
 	}
 	json_tokener_free(tok);
@@ -612,6 +614,46 @@ static void cmd_olget(int nt, char **t)
 	int ho = hidx(t[1]); char *kb; char *k = keyarg_mis(t[2], &kb); void *v = (void *)0x1; json_bool f = lh_table_lookup_ex(json_object_get_object(H[ho]), k, &v); (void)nt;
 	ob_printf(&out, "= %d %ld %d same=1 exists=%d noobj=0,1 notobj=0,1,0", (int)f, f ? uid_of((struct json_object *)v) : -1L, f ? v == NULL : 1, (int)lh_table_lookup_ex(json_object_get_object(H[ho]), k, NULL));
 	free(kb);
+}
+/* OLONGRUN <n>: an object whose table holds a run of n consecutively occupied slots, every key of the run sitting in its own home slot, plus ONE more key whose home is the
+ * first slot of the run -- so that key lives n slots away from home (whatever the hash function and seed: keys are picked by asking the library for their hash).
+ * Self-checking -> = ok size=<table size> disp=<displacement of the far key> | = BAD <what> | = skip <why> */
+static void cmd_olongrun(int nt, char **t)
+{
+	long n = L(t[1]), size = 16, lo, covered = 0, cand = 0, i; struct json_object *o = json_object_new_object(), *v = NULL; struct lh_table *tb = json_object_get_object(o);
+	char **keys; char *far = NULL; char kb[32]; unsigned char *mark; long disp = -1; int cnt; (void)nt;
+	while ((double)(n + 2) >= LH_LOAD_FACTOR * (double)size) size *= 2;
+	lo = size / 3;
+	keys = (char **)calloc((size_t)n, sizeof *keys); mark = (unsigned char *)calloc((size_t)size, 1);
+	while (covered < n || !far) {
+		unsigned long h; long r;
+		snprintf(kb, sizeof kb, "r%lx", (unsigned long)cand++);
+		h = lh_get_hash(tb, kb); r = (long)(h % (unsigned long)size);
+		if (r >= lo && r < lo + n && !mark[r]) { mark[r] = 1; keys[r - lo] = strdup(kb); covered++; }
+		else if (r == lo && !far && covered > 0 && strcmp(keys[0] ? keys[0] : "", kb)) far = strdup(kb);
+		if (cand > 400000000L) { ob_puts(&out, "= skip no-candidates"); goto done; }
+		if (!(cand & 0xFFFFF)) vf_progress++;
+	}
+	for (i = 0; i < n; i++) if (json_object_object_add(o, keys[i], json_object_new_int64(i)) != 0) { ob_puts(&out, "= skip add-failed"); goto done; }
+	if (tb->size != size) { ob_printf(&out, "= skip table-size-%d-not-%ld", tb->size, size); goto done; }   /* another growth policy: the construction does not apply */
+	vf_progress++;
+	if (json_object_object_add(o, far, json_object_new_int64(-7)) != 0) { ob_puts(&out, "= BAD adding the far key failed"); goto done; }
+	{ struct lh_entry *e = lh_table_lookup_entry(tb, far); if (e) disp = ((e - tb->table) - lo + size) % size; }
+	if (json_object_object_length(o) != n + 1) { ob_printf(&out, "= BAD length %d after %ld+1 adds", json_object_object_length(o), n); goto done; }
+	if (!json_object_object_get_ex(o, far, &v) || json_object_get_int64(v) != -7) { ob_printf(&out, "= BAD the key %ld slots away from its home slot is not found", disp); goto done; }
+	for (i = 0; i < n; i += (n > 2000 ? 97 : 1)) if (!json_object_object_get_ex(o, keys[i], &v) || json_object_get_int64(v) != i) { ob_printf(&out, "= BAD run key #%ld not found", i); goto done; }
+	if (json_object_object_add(o, far, json_object_new_int64(-8)) != 0 || json_object_object_length(o) != n + 1) { ob_printf(&out, "= BAD replacing the far key: length %d (a duplicate member?)", json_object_object_length(o)); goto done; }
+	if (!json_object_object_get_ex(o, far, &v) || json_object_get_int64(v) != -8) { ob_puts(&out, "= BAD far key after replace"); goto done; }
+	json_object_object_del(o, keys[n / 2]);                                 /* a tombstone inside the run */
+	if (!json_object_object_get_ex(o, far, &v) || json_object_get_int64(v) != -8) { ob_puts(&out, "= BAD far key not found across a deleted slot"); goto done; }
+	json_object_object_del(o, far);
+	if (json_object_object_get_ex(o, far, NULL) || json_object_object_length(o) != n - 1) { ob_printf(&out, "= BAD far key still there after delete (length %d)", json_object_object_length(o)); goto done; }
+	if (json_object_object_add(o, far, json_object_new_int64(-9)) != 0 || !json_object_object_get_ex(o, far, &v) || json_object_get_int64(v) != -9) { ob_puts(&out, "= BAD far key re-added"); goto done; }
+	cnt = 0; { int seen = 0; json_object_object_foreach(o, k2, v2) { (void)v2; cnt++; if (!strcmp(k2, far)) seen++; } if (seen != 1 || cnt != n) { ob_printf(&out, "= BAD iteration: %d members, far key seen %d time(s)", cnt, seen); goto done; } }
+	ob_printf(&out, "= ok size=%ld disp=%ld", size, disp);
+done:
+	for (i = 0; i < n; i++) free(keys[i]);
+	free(keys); free(mark); free(far); json_object_put(o);
 }
 static void cmd_olen(int nt, char **t) { int ho = hidx(t[1]); (void)nt; ob_printf(&out, "= %d", json_object_object_length(H[ho])); }
 
@@ -1265,6 +1307,7 @@ static void dispatch(int nt, char **t)
 	else if (!strcmp(c, "OGET")) cmd_oget(nt, t);
 	else if (!strcmp(c, "OLEN")) cmd_olen(nt, t);
 	else if (!strcmp(c, "OLADD")) cmd_oladd(nt, t);
+	else if (!strcmp(c, "OLONGRUN")) cmd_olongrun(nt, t);
 	else if (!strcmp(c, "OLDEL")) cmd_oldel(nt, t);
 	else if (!strcmp(c, "OLGET")) cmd_olget(nt, t);
 	else if (!strcmp(c, "OKEYS")) cmd_okeys(nt, t);
